@@ -4,6 +4,8 @@ package db
 
 import (
 	"context"
+
+	"github.com/couchbase/sync_gateway/base"
 )
 
 // C10 — version vectors order revisions soundly.
@@ -163,5 +165,92 @@ func VHarness_C10_Histories() {
 			vhPull(&reps[d], d, &reps[s])
 			vhCheckReplica(&reps[d], "after pull")
 		}
+	}
+}
+
+// ---- codecs
+
+// VHarness_C10_CasHex: the little-endian hex CAS text round-trips for every 64-bit value.
+func VHarness_C10_CasHex() {
+	v := vNondetU64()
+	s := base.CasToString(v)
+	vAssert(len(s) == 18, "CAS text is 0x + 16 hex digits")
+	vAssert(base.HexCasToUint64(s) == v, "HexCasToUint64(CasToString(v)) == v")
+	d := base.Uint64ToLittleEndianHexAndStripZeros(v)
+	back, err := base.HexCasToUint64ForDelta([]byte(d))
+	vAssert(err == nil, "delta text decodes")
+	vAssert(back == v, "HexCasToUint64ForDelta(Uint64ToLittleEndianHexAndStripZeros(v)) == v")
+}
+
+// VHarness_C10_VersionString: Version.String / ParseVersion round trip (wire form of one version).
+func VHarness_C10_VersionString() {
+	v := Version{SourceID: vhSources[vNondetRange(0, 2)], Value: vNondetU64()}
+	vAssume(v.Value != 0)
+	p, err := ParseVersion(v.String())
+	vAssert(err == nil, "ParseVersion accepts Version.String output")
+	vAssert(p.SourceID == v.SourceID && p.Value == v.Value, "ParseVersion(Version.String(v)) == v")
+}
+
+// VHarness_C10_Deltas: the persisted delta form of pv/mv round-trips for every map of up to n sources.
+func VHarness_C10_Deltas() {
+	n := vNondetRange(1, vParam("sources", 2))
+	m := map[string]uint64{}
+	for i := 0; i < n; i++ {
+		m[vhSources[i]] = vNondetU64()
+	}
+	vMapOrder(3)
+	list := VersionsToDeltas(m)
+	vMapOrder(0)
+	vAssert(len(list) == n, "one delta entry per source")
+	back, err := PersistedDeltasToMap(list)
+	vAssert(err == nil, "persisted deltas decode")
+	vAssert(len(back) == n, "decoded map has one entry per source")
+	for i := 0; i < n; i++ {
+		got, ok := back[vhSources[i]]
+		vAssert(ok && got == m[vhSources[i]], "PersistedDeltasToMap(VersionsToDeltas(m)) == m")
+	}
+}
+
+var vhWireSources = [5]string{"A", "B", "C", "D", "E"}
+
+// VHarness_C10_WireForm: the BLIP wire string of a vector (cv[,mv,mv];pv,pv) parses back to the same vector,
+// for every map iteration order.
+func VHarness_C10_WireForm() {
+	h := &HybridLogicalVector{SourceID: "A", Version: vNondetU64()}
+	withMV := vNondetBool()
+	if withMV {
+		h.MergeVersions = HLVVersions{"B": vNondetU64(), "C": vNondetU64()}
+	}
+	npv := vNondetRange(0, 2)
+	if npv > 0 {
+		h.PreviousVersions = HLVVersions{}
+		for i := 0; i < npv; i++ {
+			h.PreviousVersions[vhWireSources[3+i]] = vNondetU64()
+		}
+	}
+	vMapOrder(3)
+	hist := h.ToHistoryForHLV()
+	vMapOrder(0)
+	wire := h.GetCurrentVersionString()
+	if hist != "" {
+		if h.MergeVersions != nil {
+			wire = wire + "," + hist
+		} else {
+			wire = wire + ";" + hist
+		}
+	}
+	p, legacy, err := extractHLVFromBlipString(wire)
+	vAssert(err == nil, "wire form of a valid vector parses")
+	vAssert(legacy == nil, "no legacy revisions invented")
+	vAssert(p.SourceID == "A" && p.Version == h.Version, "current version survives the wire form")
+	vAssert(len(p.MergeVersions) == len(h.MergeVersions), "merge versions count survives")
+	vAssert(len(p.PreviousVersions) == len(h.PreviousVersions), "previous versions count survives")
+	for s, v := range h.MergeVersions {
+		got, ok := p.MergeVersions[s]
+		vAssert(ok && got == v, "merge version survives the wire form")
+	}
+	for s, v := range h.PreviousVersions {
+		got, ok := p.PreviousVersions[s]
+		vAssert(ok && got == v, "previous version survives the wire form")
 	}
 }
